@@ -124,7 +124,7 @@ func c05One(w *run.Worker, src string) {
 }
 
 func c05Main(r *run.Runner) {
-	r.Rule = "every source of the enumerations (lexeme sequences up to L tokens over three alphabets, every corruption of the grammar corpus, the corpus itself in several layouts, expression trees up to N nodes in where/extend position, all operator sequences up to depth d) is compiled with three option values; " +
+	r.Rule = "every source of the enumerations (lexeme sequences up to L tokens over three alphabets, every corruption of the grammar corpus, the corpus itself in several layouts, expression trees up to N nodes in where/extend position, all operator sequences up to depth d) and the wide families (k operands / columns / operators / joins, alone and as a join right-hand side) is compiled with three option values; " +
 		"every successful output is lexed under standard and ClickHouse rules and parsed as `[WITH ...] select ;` by the independent reader, and its table references, CTE names and CTE uses are checked; non-trivial = Compile succeeded; distinct by construction"
 	r.Assume = []string{"sqlx reads a superset of the SQL shapes pql emits", "a table is 'named in the source' when its name is the value of an identifier token of the source"}
 	b1 := tokenSweeps(r, 4, 6, c05One)
